@@ -65,5 +65,10 @@ known("C20","event semantic-after br_table->* extra","same stale flag: a br_tabl
       {"program":"[Block [Block [BrTable A [0] 1]]]","plan":"semantic-after on the br_table","input":"(0,0): 1 execution, 2 firings"})
 known("C20","invalid-instrumented-module else found outside of an `if` block [*semantic-after@br*","three or more flagged bodies resolved at one end are chained as if/else/else: the second else has no matching if and the module does not validate (a br_table contributes one body per target, so two probes suffice)",
       {"program":"[Block [Block [BrTable A [0] 1] ...]]","plan":"two semantic-after probes whose targets meet at one end"})
+
+fixed("C22","8aef522","silently-lost * via function-modifier inject_at","special-mode code injected through FunctionModifier::inject_at / add_instr_at was accepted and never resolved (has_special_instr not set)")
+fixed("C22","b1c6560","silently-lost empty-block-alt on * via *","empty_block_alt on a non-block instruction was accepted and silently ignored")
+known("C22","silently-lost semantic-after on br*fn-label via *","a semantic-after injection on a branch whose only target is the function body label is accepted by every API path and absent from the encoded function (same cause as the C20 finding: its body is scheduled after the final end, where after-code is dropped)",
+      {"program":"[Block [...], If B [Br 1]] (br to the function label)","mode":"semantic-after","api":"any of the 9 paths"})
 json.dump(F,open("/verif/known_findings.json","w"),indent=1)
 print(len(F),"entries")
